@@ -195,7 +195,9 @@ def run(template_path, workdir, repo=None):
     try:
         gen, u, rec = build(template_path, repo)
     except stage.LostAnchor as e:
-        u = VUnit(); u.name = os.path.basename(template_path); u.file = template_path
+        u = VUnit(); u.file = template_path
+        mm = re.search(r"^//! unit: (.+)$", open(template_path).read(), flags=re.M)
+        u.name = mm.group(1).strip() if mm else os.path.basename(template_path)
         return u, dict(verdict="lost-anchor", reason=str(e), functions=[], record={}, wall_s=0.0, obligations=0, discharged=0, failed=[])
     os.makedirs(workdir, exist_ok=True)
     crate = re.sub(r"\W", "_", u.name.lower())
